@@ -33,6 +33,17 @@ pub fn setup(env: &Env) -> i32 {
 pub fn rule_for(prop: &str) -> &'static str {
     match prop {
         "C01" => "cases = (declaration, raw input): per declaration the seed-independent systematic inputs (all 2^8/2^16 values of 8/16-bit integers; bound±k, extremes and powers of two for wider integers; special-value grid and ulp neighbourhoods of every bound for floats; all strings over the hostile alphabet up to a length bound plus length-bound neighbourhoods) de-duplicated, plus proptest-generated random inputs; oracle = reference model validate(sanitize(raw)) compared with try_new/new (Ok/Err and bitwise value), twins compared with each other, const-evaluated results with run time. Non-trivial = distinct (declaration, input) where a sanitizer changes the input, or the model rejects it, or it lies within 2 steps of a declared bound.",
+        "C03" => "cases = (declaration deriving TryFrom/From/FromStr(String)/Default, raw input) over the C01 input domains, plus one Default case per declaration with a default; oracle = equality (value, error, panic) with try_new/new on the same input; Default must equal the constructor on the neutral evaluation of the default expression and panic when the constructor rejects it. Non-trivial = distinct case whose input is changed by sanitising or rejected by the reference model; every Default case.",
+        "C04" => "cases = (declaration deriving Deserialize, format in {JSON, RON, MessagePack}, position in {top, Vec, Option, struct field, map value, map key}, document bytes): documents are serde encodings of seed values (valid / at and beyond each bound / changed by sanitising) at every integer and float width and as wrong types, wrapped and unwrapped as newtype struct, raw JSON/RON number spellings, plus proptest byte-level mutations; oracle = the same bytes decoded as a serde-derived reference newtype of the same name, then the constructor applied to every carried value (map keys: accepted keys must be fixed points of the constructor). Non-trivial = distinct document that decodes and whose value the constructor rejects or changes, or any nested position.",
+        "C06" => "cases = (non-string declaration deriving FromStr, string): Display renderings of all systematic inner values with sign/padding/zero/exponent variants, a list of hostile numeric strings (overflowing digit runs, NaN/inf spellings, non-ASCII digits, type extremes ±1), proptest strings from numeric grammars and arbitrary Unicode; oracle = inner.parse() then the constructor, compared in variant and payload (Debug of the parse error, validation error index). Non-trivial = distinct string that parses as the inner type.",
+        "C07" => "cases = (declaration with validators incl. all order permutations, raw input) over the C01 input domains; oracle = the reference model's index of the first violated validator in declaration order (custom validators: payload equality); the error enum is matched without wildcard in the generated glue. Non-trivial = distinct case violating at least two declared rules, or a custom-error case.",
+        "C09" => "cases = (declaration deriving Arbitrary with non-empty valid set, byte string): ALL byte strings of length 0, 1 and 2, boundary patterns of every length up to 64, little-endian encodings of hostile code points in char slots, proptest random byte strings; oracle = no panic, and an Ok value satisfies the reference model's validators and is sanitized. Non-trivial = distinct input that is empty / all-00 / all-FF / longer than 2 bytes, or whose result lies within 2 steps of a bound, or that makes the generator panic.",
+        "C10" => "cases = (declaration deriving Serialize+Deserialize with built-in or idempotent sanitizers, obtainable value, format): oracle = bytes equal serde's own derive for a newtype struct of the same name; for JSON and MessagePack byte-identical to the inner value's encoding; if the inner value round-trips, deserializing the output yields the same value. Non-trivial = distinct value with non-ASCII/escaped text, exponent or extreme number, -0.0, or within 2 steps of a bound.",
+        "C11" => "cases = (declaration with built-in or idempotent sanitizers, start input, chain of up to 4 operations drawn from {try_new, TryFrom/From, Display->FromStr, Serialize->Deserialize in 3 formats}), interpreted against the live value with the invariant 'value unchanged' after every step (a step applies only if the inner type itself survives that medium); chains are generated as vec(op, 0..=4) and shrink as one value. Non-trivial = distinct case whose start input was changed by sanitising, or a chain of >= 2 steps mixing two media.",
+        "C12" => "cases = for float declarations deriving Eq/Ord: (entry point, payload) attempts through try_new, TryFrom, FromStr, Deserialize (3 formats), Arbitrary and Default with every NaN payload class, ±inf, overflowing decimal strings, f64->f32 narrowing; and triples of accepted raw inputs (full cube of a spread of up to 28 values incl. ±0, subnormals, extremes, bound neighbours, plus random triples) checked for reflexivity, antisymmetry, transitivity, agreement of cmp with the inner partial_cmp and of partial_cmp with cmp, sort and BTreeSet round trip under catch_unwind. Non-trivial = distinct attempt with non-finite or hostile payload; distinct triple involving ±0, tiny or bound-adjacent values.",
+        "C13" => "cases = (declaration deriving view/comparison traits, obtainable value) and (declaration, pair of obtainable values: full square of a spread of values incl. pairs that differ before sanitising and are equal after, plus random pairs); oracle = the same operation on the stored inner value(s): AsRef/Deref/Borrow/Into/Clone/Copy/iteration expose it, Display equals inner Display, Eq/Ord/PartialOrd equal the inner answers, Hash equals the hash of the borrowed form and HashMap lookup through Borrow finds the key. Non-trivial = distinct case where sanitising changed the value, a pair equal only after sanitising, or operands within 2 steps of a bound.",
+        "C14" => "cases = (integer declaration deriving Arbitrary with identity sanitizers and a valid set of at most 2^16 values, byte string): ALL byte strings of length 0, 1 and 2 (everything int_in_range can consume for such a span); oracle = produced set ⊇ valid set computed from the reference model (the other inclusion is C09). Exhaustive per declaration. Non-trivial = inputs of declarations whose bound is an expression or touches the type's MIN/MAX.",
+        "C16" => "cases = (declaration, bound validator, probe value at bound-2..bound+2 in units / ulps / chars): the Display text is parsed into (relation, bound) through a table of comparative phrases; oracle = the stated relation holds for exactly the probes the validator accepts, the text names the type and the declared bound, and serde / FromStr errors embed it. Exhaustive over the probe grid. Non-trivial = probes exactly at the bound.",
         _ => "",
     }
 }
@@ -217,7 +228,7 @@ fn finish(
     let mut printed = 0;
     for v in &new_viols {
         let first = seen_sig.insert(v.signature.clone());
-        if first && printed < 25 {
+        if first && printed < 8 {
             let dir = write_replay(env, decls, v, tier);
             println!("VIOLATION property={prop} replay={}", dir.display());
             println!("  signature: {}", v.signature);
